@@ -32,13 +32,23 @@ def build(country, strategy, months=1, feed=0.0, grass=0.0):
             orig.__init__(self, name)
             captured.append(self)
     ap.CountryData = CD
+    # the grass-eligible list is built by main() itself: take the list main() hands to feed_animals (the wiring under test), not one rebuilt here
+    handed = []
+    real_feed = ap.AnimalPopulation.feed_animals
+
+    def spy(animal_list, ruminants, available_feed, available_grass):
+        if not handed:
+            handed.append(list(ruminants))
+        return real_feed(animal_list, ruminants, available_feed, available_grass)
+    ap.AnimalPopulation.feed_animals = spy
     try:
         with contextlib.redirect_stdout(io.StringIO()):
             animals, fu, gu = ap.main(country, Food(np.zeros(months) + feed), Food(np.zeros(months) + grass), strategy,
                                       constants_inputs=None, remove_first_month=0, kcals_per_head_meat_dict=dict(KCALS_PER_HEAD))
     finally:
         ap.CountryData = orig
-    ruminants = [a for a in animals if a.digestion_type == "ruminant"]
+        ap.AnimalPopulation.feed_animals = real_feed
+    ruminants = handed[0] if handed else [a for a in animals if a.digestion_type == "ruminant"]
     return animals, ruminants, captured[0]
 
 
